@@ -250,7 +250,7 @@ func checkC19(p *core.Program, r *core.Report) {
 	ix := indexFuncs(p)
 	cmds := cliCommands(p)
 	r.Count("cli commands", len(cmds))
-	r.Floor("cli commands", 12)
+	r.Floor("cli commands", 8)
 	mainPk := p.Pkg("")
 	if mainPk == nil {
 		r.Violation("O19.1", "package main", "-", "root package not found")
@@ -448,7 +448,7 @@ func checkC19(p *core.Program, r *core.Report) {
 			r.Violation("O19.3", cn, p.Pos(at.Pos()), "with mode outside {insertion, deletion} the action can end without a failing status: %s", strings.Join(bad, "; "))
 		}
 	}
-	r.Floor("mode-taking commands", 8)
+	r.Floor("mode-taking commands", 4)
 
 	// ---- O19.5
 	var prove, verify, gen *cliCommand
